@@ -42,7 +42,7 @@ def run(ctx):
   ctx.expect("R-C05-SIZES", 2, "default list + override")
   ctx.expect("R-C05-CUT", 5, "two checks")
   ctx.expect("R-C05-DENOM", 2, "two denominators")
-  ctx.expect("R-C05-PM1", 4, "product, gate, both-smooth, default")
+  ctx.expect("R-C05-PM1", 8, "default product, bound product, FastProduct tree, gate, both-smooth, default")
   ctx.expect("R-C05-HW", 4, "thresholds + defaults + verdict + pruning")
 
 
@@ -91,44 +91,73 @@ def rule_sizes(ctx):
 
 
 def rule_cut(ctx):
+  """Cut-offs of the two pattern checks, read off the path facts of the `continue` / `break` events and the loop iterables (values, not names)."""
   R = "R-C05-CUT"
   repo = ctx.repo
+
+  def size_bound(fc):
+    """cmp fact `x > bit_length(n) // K` (either spelling) -> (x, K)"""
+    if fc[0] != "cmp" or fc[1] not in ("Gt", "Lt") or not isinstance(fc[2], Poly) or not isinstance(fc[3], Poly):
+      return None
+    big, small = (fc[2], fc[3]) if fc[1] == "Gt" else (fc[3], fc[2])
+    a = small.as_atom()
+    if a is not None and a.kind == "fdiv" and as_poly(a.args[0]).as_atom() is not None and as_poly(a.args[0]).as_atom().kind == "bitlen" and as_poly(a.args[1]).as_int():
+      return big, as_poly(a.args[1]).as_int()
+    return None
   b = body(repo, "CheckBitPatterns")
-  K = None
+  calls = b.calls("repo:rsa_util:CheckFraction")
+  Ks = set()
+  okc = False
   for e in b.events:
-    if e.kind == "assign" and e.data["name"] == "max_pattern_size":
-      v = as_poly(e.data["value"]).as_atom()
-      if v is not None and v.kind == "fdiv" and v.args[0].as_atom() is not None and v.args[0].as_atom().kind == "bitlen":
-        K = v.args[1].as_int()
-        same_key = "rsa_info" in repr(v.args[0])
+    if e.kind != "continue":
+      continue
+    for fc in e.facts:
+      sb = size_bound(fc)
+      if sb is not None and sb[0].as_atom() is not None and sb[0].as_atom().kind == "idx":
+        Ks.add(sb[1])
+        okc = True
+  K = max(Ks) if Ks else None
   ctx.record(R, b.where(), "max pattern size = bit_length // K, K <= 16", K is not None and 1 <= K <= 16, "K = %r (statement: w at most 1/16 of the modulus length)" % K)
-  # oversize patterns are skipped with continue (list is unordered)
-  conts = [e for e in b.events if e.kind == "continue"]
-  brks = [e for e in b.events if e.kind == "break"]
-  okc = any(norm(e.state.pc[-1][2].test) in ("pattern_size > max_pattern_size", "max_pattern_size < pattern_size") for e in conts if e.state.pc and e.state.pc[-1][2] is not None)
-  badb = [e for e in brks if e.state.pc and e.state.pc[-1][2] is not None and "max_pattern_size" in norm(e.state.pc[-1][2].test)]
+  # oversize patterns are skipped with continue (list is unordered); a break under the same comparison ends the search early
+  badb = [e for e in b.events if e.kind == "break" and any(size_bound(fc) is not None and size_bound(fc)[0].as_atom() is not None and size_bound(fc)[0].as_atom().kind == "idx" for fc in e.facts)]
   ctx.record(R, b.where(), "oversize patterns skipped with `continue`", okc and not badb, "the size list is unordered: remaining sizes are still tried" if okc and not badb else
              "an oversize pattern ends the search over the (unordered) size list")
-  calls = b.calls("repo:rsa_util:CheckFraction")
   okd = bool(calls) and all(len(e.data["args"]) == 2 for e in calls)
   ctx.record(R, b.where(), "every admissible size is handed to CheckFraction(n, d)", okd, "one lattice attempt per size" if okd else "CheckFraction call changed")
   # permuted
   b = body(repo, "CheckPermutedBitPatterns")
-  fn = b.func.node
-  loops = [x for x in ast.walk(fn) if isinstance(x, ast.For)]
-  ws = [x for x in loops if isinstance(x.target, ast.Name) and x.target.id == "wsize"]
-  psl = [x for x in loops if isinstance(x.target, ast.Name) and x.target.id == "psize"]
-  wvals = fold.try_fold(ws[0].iter) if ws else None
-  okw = wvals is not None and {8, 16, 32, 64} <= set(wvals)
-  okp = bool(psl) and ast.unparse(psl[0].iter).replace(" ", "") == "range(3,wsize,2)"
+  wvals = None
+  okp = False
+  for info in b.w.loop_info.values():
+    for vis in info["visits"]:
+      it = vis["iter"]
+      vals = None
+      if isinstance(it, Seq):
+        vals = [as_poly(x).as_int() for x in it.items if not isinstance(x, (Seq, tuple))]
+      elif isinstance(it, Poly) and it.as_atom() is not None and it.as_atom().kind == "seq":
+        vals = [as_poly(x).as_int() for x in it.as_atom().args]
+      if vals and all(v_ is not None for v_ in vals) and {8, 16, 32, 64} <= set(vals):
+        wvals = vals
+        W = sym.mk("idx", as_poly(it), as_poly(vis["k"]))
+        for inf2 in b.w.loop_info.values():
+          for v2 in inf2["visits"]:
+            if isinstance(v2["iter"], Poly) and v2["iter"] == sym.mk("range", Poly.const(3), W, Poly.const(2)):
+              okp = True
+  okw = wvals is not None
   ctx.record(R, b.where(), "word sizes {8,16,32,64}, pattern sizes odd 3 .. wsize-1", okw and okp, "enumeration as documented" if okw and okp else "word sizes %r / pattern range changed" % (wvals,))
-  K2 = None
+  calls = b.calls("repo:rsa_util:CheckFraction")
+  dens = {repr(as_poly(e.data["args"][1])) for e in calls if len(e.data["args"]) == 2}
+  K2s = set()
+  brk_ok = False
   for e in b.events:
-    if e.kind == "assign" and e.data["name"] == "max_dsize":
-      v = as_poly(e.data["value"]).as_atom()
-      if v is not None and v.kind == "fdiv":
-        K2 = v.args[1].as_int()
-  brk_ok = any(e.state.pc and e.state.pc[-1][2] is not None and norm(e.state.pc[-1][2].test) == "d.bit_length() > max_dsize" for e in b.events if e.kind == "break")
+    if e.kind != "break":
+      continue
+    for fc in e.facts:
+      sb = size_bound(fc)
+      if sb is not None and sb[0].as_atom() is not None and sb[0].as_atom().kind == "bitlen" and repr(as_poly(sb[0].as_atom().args[0])) in dens:
+        K2s.add(sb[1])
+        brk_ok = True
+  K2 = max(K2s) if K2s else None
   ctx.record(R, b.where(), "denominator cut-off bit_length(d) > bit_length(n) // K', K' <= 10", K2 is not None and 1 <= K2 <= 10 and brk_ok,
              "K' = %r; break is sound because denominators grow with psize" % K2 if K2 is not None and K2 <= 10 and brk_ok else "cut-off K' = %r / guard changed" % K2)
 
@@ -174,27 +203,62 @@ def rule_pm1(ctx):
   init = c.methods.get("__init__")
   if init is None:
     raise Incomplete("CheckPollardpm1.__init__ vanished", RS)
-  els = None
-  for s in init.node.body:
-    if isinstance(s, ast.If) and norm(s.test) == "bound":
-      els = s.orelse
-  vals = {}
-  nprimes = None
-  if els:
-    for s in els:
-      if isinstance(s, ast.Assign) and isinstance(s.targets[0], ast.Name):
-        v = fold.try_fold(s.value)
-        if v is not None:
-          vals[s.targets[0].id] = v
-      if isinstance(s, ast.For) and isinstance(s.iter, ast.Call) and ast.unparse(s.iter.func) == "range":
-        nprimes = fold.try_fold(s.iter.args[0]) if len(s.iter.args) == 1 else None
-        txt = ast.unparse(s)
-  src = ast.unparse(ast.Module(body=els or [], type_ignores=[]))
-  ok = vals.get("smooth", 0) >= 2 ** 20 and vals.get("powersmooth", 0) >= 2 ** 64 and (nprimes or 0) >= 150 and \
-      "powers = list(map(gmpy.mpz, ntheory_util.Sieve(smooth)))" in src and "powers[i] = powers[i] ** int(math.log(powersmooth, powers[i]))" in src and \
-      "self._m = ntheory_util.FastProduct(powers)" in src
+  # the product handed to Pollardpm1, read off the walker's values on both constructor paths (no local names involved):
+  #   self._m = FastProduct(L),  L = [mpz(p) for p in Sieve(S)] with L[k] replaced by p ** floor(log_p(PS)) for k < N
+  wi = sym.Walker(repo, init)
+  wi.run()
+  bound_p = P("param", [q for q in init.params() if q != "self"][0]) if [q for q in init.params() if q != "self"] else None
+  found = {}
+  for e in wi.events:
+    if e.kind != "setattr" or as_poly(e.data["base"]) != SELF or not isinstance(e.data["value"], Poly):
+      continue
+    va = e.data["value"].as_atom()
+    if va is None or va.kind != "call" or repr(va.args[0]) != "lit('ntheory_util:FastProduct')":
+      continue
+    L = as_poly(va.args[1])
+    desc = None
+    for info in wi.loop_info.values():
+      for vis in info["visits"]:
+        hit = [nm for nm, v in vis["after_env"].items() if isinstance(v, Poly) and v == L]
+        if not hit:
+          continue
+        nm = hit[0]
+        pre, head = vis["pre_env"].get(nm), vis["head"].env.get(nm)
+        it = as_poly(vis["iter"]).as_atom() if isinstance(vis["iter"], Poly) else None
+        k = as_poly(vis["k"])
+        stores = [x for x in wi.events if x.kind == "store" and isinstance(x.data.get("base"), Poly) and isinstance(head, Poly) and x.data["base"] == head]
+        pa = as_poly(pre).as_atom() if isinstance(pre, Poly) else None
+        sieve = None
+        if pa is not None and pa.kind == "map" and len(pa.args) == 2 and repr(pa.args[0]) == "ref('gmpy2.mpz')":
+          sa = as_poly(pa.args[1]).as_atom()
+          if sa is not None and sa.kind == "call" and repr(sa.args[0]) == "lit('ntheory_util:Sieve')":
+            sieve = as_poly(sa.args[1])
+        raised = None
+        for x in stores:
+          xv = as_poly(x.data["value"]).as_atom()
+          el = sym.mk("idx", head, k)
+          if as_poly(x.data["index"]) == k and xv is not None and xv.kind == "pow" and as_poly(xv.args[0]) == el:
+            ex = as_poly(xv.args[1]).as_atom()
+            while ex is not None and ex.kind in ("int", "math.floor") and len(ex.args) == 1:
+              ex = as_poly(ex.args[0]).as_atom()
+            if ex is not None and ex.kind == "math.log" and len(ex.args) == 2 and as_poly(ex.args[1]) == el:
+              raised = as_poly(ex.args[0])
+        count = as_poly(it.args[0]) if it is not None and it.kind == "range" and len(it.args) == 1 else None
+        desc = (sieve, raised, count, head, as_poly(pre) if isinstance(pre, Poly) else None)
+    isdef = any(f_[0] in ("falsy",) and bound_p is not None and isinstance(f_[1], Poly) and f_[1] == bound_p for f_ in e.facts)
+    found["default" if isdef else "bound"] = desc
+  dflt = found.get("default")
+  ok = dflt is not None and dflt[0] is not None and (dflt[0].as_int() or 0) >= 2 ** 20 and dflt[1] is not None and (dflt[1].as_int() or 0) >= 2 ** 64 and \
+      dflt[2] is not None and (dflt[2].as_int() or 0) >= 150
   ctx.record(R, init.where, "default product: primes < 2^20, prime powers up to 2^64 for the first 150 primes", ok,
-             "smooth = %r, powersmooth = %r, %r primes raised" % (vals.get("smooth"), vals.get("powersmooth"), nprimes))
+             "FastProduct over Sieve(%s) with p ** floor(log_p(%s)) for the first %s primes" % tuple(repr(x)[:24] for x in dflt[:3]) if dflt else "the default path does not build self._m = FastProduct(..) over a sieve with raised prime powers")
+  bnd = found.get("bound")
+  okb = bnd is not None and bound_p is not None and bnd[0] == bound_p and bnd[1] == bound_p and bnd[2] is not None and (bnd[2] == sym.mk("len", bnd[3]) or (bnd[4] is not None and bnd[2] == sym.mk("len", bnd[4])))
+  ctx.record(R, init.where, "user bound B: every prime below B raised to floor(log_p B)", okb,
+             "FastProduct over Sieve(B) with p ** floor(log_p(B)) for every prime" if okb else "the bound path does not raise every prime below the bound to its largest power below the bound")
+  # the product itself: pairwise tree that keeps the unpaired last element (shared with C03)
+  from . import c03
+  ctx.borrow(c03.rule_tree, R, lambda r: r.where.endswith(":FastProduct"))
   f = repo.func("rsa_util", "Pollardpm1")
   w = sym.Walker(repo, f)
   w.run()
